@@ -18,7 +18,9 @@ import (
 	"net/http"
 	"os"
 	"regexp"
+	"runtime"
 	"sort"
+	"strconv"
 	"strings"
 	"sync"
 	"sync/atomic"
@@ -45,10 +47,11 @@ type childCfg struct {
 }
 
 const (
-	exitStall  = 7
-	exitLeak   = 8
-	clientWait = 15 * time.Second
-	memKB      = 8 << 20 // ulimit -v: an allocation bomb is a prompt, attributable death
+	exitStall   = 7
+	exitLeak    = 8
+	exitRecycle = 9
+	clientWait  = 15 * time.Second
+	memKB       = 8 << 20 // ulimit -v: an allocation bomb is a prompt, attributable death
 )
 
 type openCase struct {
@@ -101,6 +104,8 @@ func Main(c *run.Ctx) {
 				break
 			}
 			switch {
+			case out.Exit == exitRecycle:
+				// the child had grown large (address space is capped) and handed over after a finished case
 			case out.Exit == exitLeak:
 				// reported by the child; it ended itself so that what it leaked cannot disturb later cases
 				mu.Lock()
@@ -123,6 +128,13 @@ func Main(c *run.Ctx) {
 				}
 				if strings.Contains(out.Stderr, "watchdog") && strings.Contains(head, "ping") {
 					c.Undecided("reader watchdog fired")
+					break
+				}
+				if n := oomBlock(head); n > 0 && n < 1<<30 {
+					// the address-space cap was hit by a modest allocation: the space was used up by
+					// earlier requests of this child, the open case is not shown to be the cause
+					c.Undecided("address space of the child exhausted by a modest allocation")
+					c.Cover("deaths-undecided", sigEndpoint(open.Endpoint)+"|"+clip(head, 80), 1)
 					break
 				}
 				sig := "process-death/" + sigEndpoint(open.Endpoint) + "/" + frame
@@ -180,6 +192,18 @@ func deathHead(stderr string) (head, frame string) {
 		}
 	}
 	return
+}
+
+var oomRe = regexp.MustCompile(`cannot allocate (\d+)-byte block`)
+
+// oomBlock returns the size of the allocation that failed (0 if the head is not an out-of-memory report).
+func oomBlock(head string) int64 {
+	m := oomRe.FindStringSubmatch(head)
+	if m == nil {
+		return 0
+	}
+	n, _ := strconv.ParseInt(m[1], 10, 64)
+	return n
 }
 
 func tailS(s string, n int) string {
@@ -542,7 +566,7 @@ func Child(c *run.Ctx, name string) {
 					}
 				}
 			}
-			c.Violation("goroutine-leak/"+ep+"/"+leakFrame(lg)+"/"+rowsLeakClass(cs), fmt.Sprintf("%s: %v after the request ended (%s) %d kind(s) of goroutines started for it are still alive and blocked (and %d driver.Rows still open), e.g. %s; request %s; database script %s; client %s",
+			c.Violation("goroutine-leak/"+ep+"/"+leakFrame(lg, rowsLeakClass(cs)), fmt.Sprintf("%s: %v after the request ended (%s) %d kind(s) of goroutines started for it are still alive and blocked (and %d driver.Rows still open), e.g. %s; request %s; database script %s; client %s",
 				cs.Gen.Endpoint, bound, outcome.answer, len(lg), lr, clip(lg[0], 300), clip(cs.Gen.Req.String(), 300), cs.DB.class(), cs.Client),
 				map[string]any{"case_index": gi, "case": json.RawMessage(cb), "leaked": lg, "open_rows": clipAll(rows, 300), "goroutines": clip(dump, 6000)})
 		case lr > 0:
@@ -560,6 +584,15 @@ func Child(c *run.Ctx, name string) {
 		}
 		if d := time.Since(t0); d > time.Second {
 			c.Cover("slow-cases(>1s)", fmt.Sprintf("%s|%s|%s|%s send=%.1fs total=%.1fs", cs.Gen.Endpoint, cs.DB.class(), cs.Client, outcome.answer, tSend.Seconds(), d.Seconds()), 1)
+		}
+		var ms runtime.MemStats
+		runtime.ReadMemStats(&ms)
+		if ms.Sys > 3<<30 && !leak && i+1 < cfg.N {
+			// a large (survived) allocation keeps its address space: hand over to a fresh child
+			c.EndCase(gi)
+			c.Event("children_recycled_for_memory", 1)
+			c.BeginCase(gi, openCase{Trigger: "-recycle-", Endpoint: cs.Gen.Endpoint})
+			os.Exit(exitRecycle)
 		}
 		if leak {
 			// what was left behind must not disturb (or be attributed to) later cases: this child
@@ -583,14 +616,14 @@ func clipAll(ss []string, n int) []string {
 // rowsLeakClass names the circumstance under which rows stayed open.
 func rowsLeakClass(cs *ccase) string {
 	switch {
-	case cs.DB.Mode != "ok":
-		return cs.DB.Mode
-	case cs.DB.Twist != "":
-		return string(cs.DB.Twist)
+	case cs.DB.Mode == "err-open" || cs.DB.Mode == "cancel-open" || cs.DB.Mode == "err-row" || cs.DB.Mode == "cancel-row":
+		return "database-error"
 	case cs.Client != "normal":
-		return cs.Client
+		return "client-gone"
+	case cs.DB.Twist != "":
+		return "odd-result-shape"
 	}
-	return "plain-" + cs.DB.Shape
+	return "plain-result"
 }
 
 // computing returns the innermost qryn frame of a leaked goroutine that is running or runnable
@@ -633,7 +666,7 @@ func sigEndpoint(e string) string {
 // leakFrame names the kind of goroutine that was left behind: the entry function (outermost
 // qryn frame) of a leaked goroutine, preferring goroutines the request started over the
 // handler goroutine itself; among several kinds the alphabetically first.
-func leakFrame(sigs []string) string {
+func leakFrame(sigs []string, circumstance string) string {
 	var own, handler []string
 	for _, sig := range sigs {
 		parts := strings.SplitN(sig, " :: ", 2)
@@ -651,9 +684,9 @@ func leakFrame(sigs []string) string {
 	sort.Strings(own)
 	sort.Strings(handler)
 	if len(own) > 0 {
-		return own[0]
+		return own[0] + "/" + circumstance
 	}
-	return handler[0]
+	return handler[0] // the handler itself is stuck: the frame says where
 }
 
 type outcome struct {
